@@ -62,16 +62,33 @@ int cmdEnum(int argc, char** argv) {
 	struct Case {
 		std::string type, ver;
 		int mode;
+		std::vector<std::pair<int, long long>> ov; // fixed generator fields: settings of the value sweep (c01-probe)
 	};
 	std::vector<Case> cases;
 	for (auto& t : types)
 		for (auto& v : versions)
-			for (auto& m : modes) cases.push_back({t, v, atoi(m.c_str())});
+			for (auto& m : modes) cases.push_back({t, v, atoi(m.c_str()), {}});
+	if (argc > 4)
+		for (auto& l : readLines(argv[4])) {
+			JV c = jparse(l);
+			Case cs{c["type"].s, c["ver"].s, (int) c["mode"].n, {}};
+			for (auto& e : c["ov"].a) cs.ov.emplace_back((int) e.a[0].n, (long long) e.a[1].n);
+			cases.push_back(cs);
+		}
 	uint64_t seed = seedFromEnv();
 	{ Out trunc(outPath); }
 	auto caseOf = [&](size_t k) {
 		JObj c;
 		c.add("type", cases[k].type).add("ver", cases[k].ver).add("mode", cases[k].mode).add("seed", (long long) seed);
+		if (!cases[k].ov.empty()) {
+			JArr a;
+			for (auto& q : cases[k].ov) {
+				JArr e;
+				e.add((long long) q.first).add(q.second);
+				a.add(e);
+			}
+			c.raw("ov", a.done());
+		}
 		return c.done();
 	};
 	size_t crashes = runForkedCases(
@@ -79,7 +96,9 @@ int cmdEnum(int argc, char** argv) {
 		[&](size_t k, std::string& out) {
 			NifFile nif;
 			SynthInfo si;
-			if (!synthFile(nif, cases[k].type, cases[k].ver, cases[k].mode, seed, -1, &si)) return;
+			bool made = cases[k].ov.empty() ? synthFile(nif, cases[k].type, cases[k].ver, cases[k].mode, seed, -1, &si)
+											: synthFileOv(nif, cases[k].type, cases[k].ver, cases[k].mode, seed, cases[k].ov, &si);
+			if (!made) return;
 			markPhase(1);
 			auto& hdr = nif.GetHeader();
 			NiObject* b = hdr.GetBlock<NiObject>(si.blockId);
